@@ -105,7 +105,7 @@ func calcHeader(header *base.RtmpHeader, prevHeader *base.RtmpHeader, out []byte
 
 	// 设置timestamp msgLen msgTypeId msgStreamId
 	if fmt <= 2 {
-		if timestamp > maxTimestampInMessageHeader {
+		if timestamp >= maxTimestampInMessageHeader {
 			bele.BePutUint24(out[index:], maxTimestampInMessageHeader)
 		} else {
 			bele.BePutUint24(out[index:], timestamp)
@@ -126,7 +126,8 @@ func calcHeader(header *base.RtmpHeader, prevHeader *base.RtmpHeader, out []byte
 	}
 
 	// 设置扩展时间戳
-	if timestamp > maxTimestampInMessageHeader {
+	// 注意，时间戳等于0xFFFFFF时，也需要携带扩展时间戳（读取端是以>=判断的）
+	if timestamp >= maxTimestampInMessageHeader {
 		bele.BePutUint32(out[index:], timestamp)
 		index += 4
 	}
